@@ -29,3 +29,7 @@ mk("b-c09-free-guard-match", {"C09": "silent"}, [(B + "evaluators.rs",
    "                if to_consume_option[dep_id] == 0 && dep_id != output_id {\n                    values[dep_id] = None;\n                }",
    "                let keep = dep_id == output_id;\n                match (to_consume_option[dep_id], keep) {\n                    (0, false) => values[dep_id] = None,\n                    _ => {}\n                }")],
    "benign twin of C09r2-1: the output exemption is spelled as a tuple match", kind="benign")
+mk("b-c09-output-extra-ref", {"C09": "silent"}, [(B + "evaluators.rs",
+   "        let output_id = output_node.get_id() as usize;\n", "        to_consume_option[output_node.get_id() as usize] += 1;\n"),
+   (B + "evaluators.rs", "                if to_consume_option[dep_id] == 0 && dep_id != output_id {", "                if to_consume_option[dep_id] == 0 {")],
+   "benign twin of C09-2: the output node gets one extra reference (+= 1), so its counter never reaches zero", kind="benign")
